@@ -100,6 +100,13 @@ def e_background2d(inp):
         b = Background2D(inp['data'], box, mask=inp.get('mask'), coverage_mask=inp.get('coverage_mask'), filter_size=3,
                          exclude_percentile=30.0, **kw)
         out += [b.background, b.background_rms, b.background_mesh, b.background_rms_mesh, b.background_median, b.background_rms_median, b.npixels_mesh]
+    # a region without coverage, filled with a value that is neither 0 nor non-finite (a bare number must be accepted for an image with units too) and that every
+    # integer representation can hold (the maps are returned in the dtype of an integer image: -1 cannot be stored in an unsigned one)
+    cm = inp.get('coverage_mask')
+    if cm is None:
+        cm = np.zeros(SHAPE, dtype=bool); cm[:4, :5] = True; cm[-3:, -7:] = True
+    b = Background2D(inp['data'], (10, 12), mask=inp.get('mask'), coverage_mask=cm, fill_value=7.0, filter_size=3, exclude_percentile=30.0)
+    out += [b.background, b.background_rms, b.background_mesh, b.npixels_mesh]
     return out
 
 
